@@ -221,7 +221,9 @@ var Operators = []Operator{
 		}},
 	{Name: "field-uses-reserved-name", Anchor: "basic_validation: message Foo: field foo is using a reserved name", Expect: `is using a reserved name`,
 		Edit: func(rng *vlib.RNG, fs []*descriptorpb.FileDescriptorProto) bool {
-			r, ok := pickMsg(rng, fs, func(r msgRef) bool { return len(r.m.Field) >= 1 && len(r.m.ReservedName) >= 1 && isScalar(r.m.Field[0]) })
+			r, ok := pickMsg(rng, fs, func(r msgRef) bool {
+				return len(r.m.Field) >= 1 && len(r.m.ReservedName) >= 1 && isScalar(r.m.Field[0])
+			})
 			if !ok {
 				return false
 			}
